@@ -101,3 +101,13 @@ func CallbackClassics() []*chanmodel.Scenario {
 		withCbs(scn([]int{0}, nil, []op{base("ident"), recv(0)}), chanmodel.Callback{Kind: "echo"}),
 	}
 }
+
+// pingPongWithSleeper: g0 and g1 exchange n values over two unbuffered channels; g2 sleeps 5 ms and reads len.
+func pingPongWithSleeper(n int) *chanmodel.Scenario {
+	var a, b []op
+	for i := 0; i < n; i++ {
+		a = append(a, send(0, 10000+i), recv(1))
+		b = append(b, recv(0), send(1, 20000+i))
+	}
+	return scn([]int{0, 0}, []int{1, 2}, a, b, []op{sleep(5), ln(0)})
+}
